@@ -691,6 +691,93 @@ def run_tasks(tasks):
         return pool.map(_run_task, tasks, chunksize=1)
 
 
+# ----------------------------------------------------------------------------- shrinking a failing input
+
+_IDENT = re.compile(r"[A-Za-z_]\w*")
+
+
+def slice_desc(desc, q):
+    """the part of the model the failing query can depend on: the spaces on its path, the cells / references /
+    spaces whose names occur (transitively) in the formulas involved, their bases and the targets of their
+    object-valued references"""
+    by_path = dict(W.iter_spaces(desc))
+    path = tuple(st["attr"] for st in q["sp"] if "attr" in st)
+    idents = {q["cells"]}
+    all_cells = {}
+    for pth, sp in by_path.items():
+        for c in sp.get("cells", []):
+            all_cells.setdefault(c["name"], []).append(c["src"])
+    todo = [q["cells"]]
+    while todo:
+        for src in all_cells.get(todo.pop(), []):
+            for n in _IDENT.findall(src):
+                if n not in idents:
+                    idents.add(n)
+                    todo.append(n)
+    keep = set()
+
+    def keep_path(pth):
+        for k in range(1, len(pth) + 1):
+            if pth[:k] not in keep and pth[:k] in by_path:
+                keep.add(pth[:k])
+                for b in by_path[pth[:k]].get("bases", []):
+                    keep_path(tuple(b.split(".")))
+    keep_path(path)
+    changed = True
+    while changed:
+        changed = False
+        before = len(keep)
+        for pth, sp in by_path.items():
+            if pth[-1] in idents and pth[:-1] in keep | {()}:
+                keep_path(pth)
+        refs = list(desc.get("grefs", [])) + [r for pth in keep for r in by_path[pth].get("refs", [])]
+        for r in refs:
+            if r["name"] in idents and "obj" in r["val"]:
+                parts = tuple(r["val"]["obj"].split("."))
+                tp = parts if parts in by_path else parts[:-1]
+                if tp in by_path:
+                    keep_path(tp)
+                if parts not in by_path:
+                    idents.add(parts[-1])
+            if r["name"] in idents and "same_as" in r["val"]:
+                idents.add(r["val"]["same_as"])
+        changed = len(keep) != before
+
+    def sp_out(pth, sp):
+        return {"name": sp["name"], "bases": sp.get("bases", []), "formula": sp.get("formula"),
+                "refs": [r for r in sp.get("refs", []) if r["name"] in idents],
+                "cells": [c for c in sp.get("cells", []) if c["name"] in idents],
+                "spaces": [sp_out(pth + (c["name"],), c) for c in sp.get("spaces", []) if pth + (c["name"],) in keep]}
+    return {"name": desc["name"], "profile": desc.get("profile"),
+            "grefs": [r for r in desc.get("grefs", []) if r["name"] in idents],
+            "spaces": [sp_out((sp["name"],), sp) for sp in desc["spaces"] if (sp["name"],) in keep],
+            "sigs": {k: v for k, v in desc.get("sigs", {}).items() if k in idents}}
+
+
+def shrink_failures(ctx, out, limit=5):
+    """replace the model of the first unexplained failures (one per distinct message) by its slice when the
+    slice still fails in the same way"""
+    seen = set()
+    for f in out.failures:
+        if f.get("key") or f["what"] in seen or len(seen) >= limit:
+            continue
+        seen.add(f["what"])
+        h = f["history"]
+        if not h.get("queries"):
+            continue
+        try:
+            small = slice_desc(h["desc"], h["queries"][0])
+            if len(json.dumps(small)) >= len(json.dumps(h["desc"])):
+                continue
+            probe = core.Outcome()
+            run_batch(ctx, [Case(0, dict(small, name="R0"), "shrink")], probe, new_stats(), [], fixed=[h["queries"]])
+            if any(g["what"] == f["what"] for g in probe.failures):
+                f["history"] = {"desc": dict(small, name=h["desc"]["name"]), "queries": h["queries"]}
+                f["detail"] = dict(f["detail"] or {}, shrunk_from_bytes=len(json.dumps(h["desc"])))
+        except Exception:       # noqa: BLE001 - the unshrunk input is reported
+            continue
+
+
 def _chunks(seq, n):
     return [seq[k:k + n] for k in range(0, len(seq), n)]
 
@@ -778,6 +865,7 @@ def run(ctx, out):
         if phase == "generated":
             nontrivial += nt
     motif_compared = per_phase.get("motif", {}).get("compared", 0)
+    shrink_failures(ctx, out)
     out.coverage.update({
         "evaluations": stats["compared"],
         "distinct_nontrivial": nontrivial,
